@@ -32,6 +32,7 @@ def cases(tier, rng):
                 if n <= 3 or rng.random() < 0.4:
                     yield {"k": 305, "args": [ds], "call": {"api": rng.choice(["vec", "ras"])}, "group": f"exh-n{n}-isvalid"}
                     yield {"k": 306, "args": [ds], "call": {"api": rng.choice(["vec", "ras"])}, "group": f"exh-n{n}-repair"}
+                    yield {"k": 306, "args": [ds], "call": {"api": rng.choice(["vec", "ras"]), "pre": rng.choice(["sort", "walk"])}, "group": f"exh-n{n}-repair-after-order"}
     nrand = 250 if tier == "quick" else 2500
     for t in range(nrand):
         n = rng.randint(2, 60 if t % 3 else 9)
@@ -43,7 +44,7 @@ def cases(tier, rng):
         yield {"k": 301, "args": [ds], "group": "rand-rank"}
         yield {"k": 303 if "sort" in api else 302, "args": [ds, nets.pits(ds)], "call": {"api": api}, "group": f"rand-{api}"}
         yield {"k": 305, "args": [ds], "call": {"api": "ras"}, "group": "rand-isvalid"}
-        yield {"k": 306, "args": [ds], "call": {"api": rng.choice(["vec", "ras"])}, "group": "rand-repair"}
+        yield {"k": 306, "args": [ds], "call": {"api": rng.choice(["vec", "ras"]), "pre": rng.choice([None, "sort", "walk"])}, "group": "rand-repair"}
 
 
 def impl(case):
@@ -82,8 +83,12 @@ def impl(case):
         st, v = call_impl(lambda: bool(flw.isvalid))
         return [[int(v)]] if st == "ok" else [[-2], [st]]
     if k == 306:
-        before = arr.copy()
+        pre = call.get("pre")
+        if pre:   # a previous ordering (and whatever it memoised) must not survive the repair
+            call_impl(flw.order_cells, pre)
         st, _ = call_impl(flw.repair_loops)
+        if st == "ok" and pre:
+            st, _ = call_impl(flw.order_cells, pre)
         if st != "ok":
             return [[-2], [st]]
         from common import net_canon
